@@ -37,7 +37,7 @@ m = {
     "engines": [
         {"name": "lean-model", "path": "/verif/lean", "serves_properties": [c["property_id"] for c in checks], "kind_free_text": "Lean 4 models, specifications, property theorems, compiled line-protocol drivers (modeld_c0x)"},
         {"name": "vharness", "path": "/verif/harness", "serves_properties": [c["property_id"] for c in checks], "kind_free_text": "Rust harness linked against /repo (feature verif): runs the real code on generated inputs / histories / crash points, child processes with deadlines"},
-        {"name": "extract", "path": "/verif/tools/extract.py", "serves_properties": [], "kind_free_text": "source-to-Lean translator for table-like code (regenerated on every run)"},
+        {"name": "extract", "path": "/verif/tools/extract.py", "serves_properties": [p for p in ["C03", "C06", "C08", "C11", "C13", "C14", "C15", "C17", "C18"] if p in [c["property_id"] for c in checks]], "kind_free_text": "source-to-Lean translator for table-like code, regenerated on every run into lean/LocustModel/Gen/*.lean (operator registry, capnp schemas + (de)serialisation arms + field copies, routing constants, HTTP status tables and handler shapes, WAL protocol facts: gate/trigger comparisons, cursor field, step order); theorems import the generated files, so a changed table breaks a proof obligation"},
     ],
     "checks": checks,
     "not_applicable": na,
